@@ -16,6 +16,8 @@ package c11
 import (
 	"fmt"
 	"hash/fnv"
+	"os"
+	"path/filepath"
 	"regexp"
 	"sort"
 	"strings"
@@ -146,7 +148,9 @@ func precise(label, arg string) bool {
 		return true
 	case "num-integer-keyword":
 		switch arg {
-		case "x", "1e400", "99999999999999999999", "9223372036854775808", "-9223372036854775809", "-1", "1.5":
+		// (9223372036854775808 = 2^63 is a valid value of these unsigned keywords: it can only be wrong
+		// in relation to a sibling bound, and then the schema object that holds both is the offending node)
+		case "x", "1e400", "99999999999999999999", "-9223372036854775809", "-1", "1.5":
 			return true
 		}
 	case "num-keyword":
@@ -609,6 +613,48 @@ func regressionMutants() []mutCase {
 	return out
 }
 
+// richMutants: every site of corpus/c11/rich.json (a document that ogen accepts and that uses
+// most constructs of the format: servers, security, callbacks, links, examples, encodings,
+// discriminators, extensions, every parameter location) gets every structural fault kind with every
+// variant, every other kind with one variant that rotates with the seed. Bounded-exhaustive, part of
+// the quick tier (always run, sharded with the regression list).
+func richMutants() []mutCase {
+	data, err := os.ReadFile(filepath.Join(verifRoot(), "corpus", "c11", "rich.json"))
+	if err != nil {
+		panic(err)
+	}
+	var doc yaml3.Node
+	if err := yaml3.Unmarshal(data, &doc); err != nil {
+		panic(err)
+	}
+	tree, _ := fromYAML(&doc, 0)
+	ix := collectSites(tree)
+	seed := vk.Seed()
+	var out []mutCase
+	for _, f := range faultKinds {
+		if f == "deep" {
+			continue
+		}
+		for _, st := range ix.byFault[f] {
+			vs := variants(tree, f, st)
+			if len(vs) == 0 {
+				continue
+			}
+			h := hash64(seed, "rich", st.Path, st.Key, f)
+			switch f {
+			case "delete", "null", "empty", "retype", "code-null", "code-dup", "dupname":
+			default:
+				vs = []string{vs[h%uint64(len(vs))]}
+			}
+			for i, arg := range vs {
+				out = append(out, mutCase{Inline: string(data), Path: st.Path, Key: st.Key, Fault: f, Arg: arg,
+					Strict: (h>>20+uint64(i))%2 == 0, PlainKeys: plainKeysFor(tree, st.Path, (h>>24)%4)})
+			}
+		}
+	}
+	return out
+}
+
 func regressionMutantsOf(spec string, build func(find func(keys ...string) []int, add func(path []int, key bool, fault string, args ...string))) []mutCase {
 	var doc yaml3.Node
 	if err := yaml3.Unmarshal([]byte(spec), &doc); err != nil {
@@ -700,7 +746,7 @@ func TestMutants(t *testing.T) {
 	u.Set("bases_sampled", len(bases))
 	var regress []mutCase
 	shard, shards := vk.Shard()
-	for i, c := range regressionMutants() {
+	for i, c := range append(regressionMutants(), richMutants()...) {
 		if i%shards == shard {
 			regress = append(regress, c)
 		}
@@ -800,4 +846,13 @@ func enumerateMutants(u *vk.Unit, check func(mutCase) *vk.Finding) {
 	wg.Wait()
 	u.LabelN("enumerated-exhaustive-bases", enumerated)
 	u.LabelN("enumerated-sampled-big-bases", sampled)
+}
+
+// verifRoot is the directory of the verification tree (set by the driver; the working copy when a
+// test is run by hand from checks/c11).
+func verifRoot() string {
+	if r := os.Getenv("VERIF_ROOT"); r != "" {
+		return r
+	}
+	return filepath.Join("..", "..")
 }
